@@ -432,3 +432,120 @@ def suite_removed_unreachable_after_read(tier, seed, how_list=("delete5", "repla
                 elif lost:
                     s.violate("unrelated-event-lost", case, "an event that was not removed is no longer served through: %s" % lost, observed=obs)
     return s
+
+
+# ------------------------------------------------------------------------------------ C07: real process kills on SQLite
+KILL_SCRIPT = r'''
+import sys, json, os, signal, asyncio, logging
+logging.disable(logging.CRITICAL)
+sys.path.insert(0, "/verif")
+from harness import env
+import sqlalchemy as sa
+from sqlalchemy.engine import Engine
+path, history, kill_at = sys.argv[1], json.loads(sys.argv[2]), int(sys.argv[3])
+async def main():
+    from nostr_relay.storage import get_metadata
+    from nostr_relay.storage.db import DBStorage
+    env.load_config()
+    env.patch_clock()
+    o = {"sqlalchemy.url": "sqlite+aiosqlite:///" + path, "validators": ["nostr_relay.validators.is_signed"]}
+    from nostr_relay.config import Config
+    Config.storage = dict(o)
+    st = DBStorage(o)
+    await st.setup()
+    async with st.db.begin() as conn:
+        await conn.run_sync(get_metadata().create_all)
+    for ev in history[:-1]:
+        await st.add_event(dict(ev))
+    n = [0]
+    def before(conn, cursor, statement, parameters, context, executemany):
+        if statement.lstrip().upper().startswith(("PRAGMA",)):
+            return
+        if n[0] == kill_at:
+            os.kill(os.getpid(), signal.SIGKILL)
+        n[0] += 1
+    if kill_at >= 0:
+        sa.event.listen(Engine, "before_cursor_execute", before)
+    try:
+        await st.add_event(dict(history[-1]))
+    except Exception as e:
+        print("EXC", type(e).__name__)
+    print("STATEMENTS", n[0])
+    await st.close()
+env.run(main())
+'''
+
+
+def _sqlite_dump(path):
+    import sqlite3
+    con = sqlite3.connect(path)
+    try:
+        ev = sorted(r[0].hex() for r in con.execute("SELECT id FROM events"))
+        tg = sorted((r[0].hex(), r[1], r[2]) for r in con.execute("SELECT id, name, value FROM tags"))
+        ok = con.execute("PRAGMA integrity_check").fetchone()[0]
+    finally:
+        con.close()
+    return {"events": ev, "tags": [list(t) for t in tg], "integrity": ok}
+
+
+def suite_sqlite_kill(tier, seed):
+    """SIGKILL of the relay process at every statement of the transaction that applies one event, then the
+    database file is reopened by another process: it must be exactly the state before or after that event."""
+    import json
+    import os
+    import subprocess
+    import sys
+    import tempfile
+    import shutil
+    s = Suite("fault:sqlite-process-kill")
+    s.rule = ("a history is applied by a child process to a file-backed SQLite database; while it applies the last event (a replacement that "
+              "supersedes older versions and writes tag rows, or a kind-5 deletion with several references) the child SIGKILLs itself just before "
+              "its k-th statement, for every k; the parent reopens the file with the sqlite3 module: integrity_check ok and events+tags equal "
+              "to the dump without the last event or with it")
+    rng = rng_for(seed, "sqlkill")
+    repo = os.environ.get("VERIF_REPO", "/repo")
+    envv = dict(os.environ, PYTHONPATH="%s:/verif/shims:/verif" % repo)
+
+    def run_child(path, hist, k):
+        return subprocess.run([sys.executable, "-c", KILL_SCRIPT, path, json.dumps(hist), str(k)], stdout=subprocess.PIPE,
+                              stderr=subprocess.PIPE, timeout=120, env=envv)
+    for h in range(1 if tier == "quick" else 8):
+        who = rng.randrange(3)
+        if rng.random() < 0.5:
+            hist = [env.mk_event(who, 10002, env.NOW - 100 + i, [["r", "wss://x%d" % i], ["t", "k"]], "v%d" % i) for i in (0, 2)]
+            hist.append(env.mk_event((who + 1) % 3, 1, env.NOW - 50, [["t", "k"]], "other"))
+            hist.append(env.mk_event(who, 10002, env.NOW - 10, [["r", "wss://new"], ["t", "k"], ["p", env.PUBS[3]]], "newest"))
+            kind = "replacement"
+        else:
+            hist = [env.mk_event(who, 1, env.NOW - 100 + i, [["t", "k"]], "n%d" % i) for i in range(3)]
+            hist.append(env.mk_event(who, 5, env.NOW - 10, [["e", e["id"]] for e in hist[:3]] + [["t", "k"]], "bye"))
+            kind = "deletion"
+        d = tempfile.mkdtemp(prefix="verif-kill-")
+        try:
+            pold, pnew = os.path.join(d, "old.sqlite3"), os.path.join(d, "new.sqlite3")
+            r = run_child(pold, hist[:-1] + [hist[-2]], -1)     # old state: the last event withheld (a duplicate of the previous is a no-op)
+            r2 = run_child(pnew, hist, -1)
+            if r.returncode != 0 or r2.returncode != 0:
+                s.disagree({"history": kind}, None, (r.stderr.decode()[-500:], r2.stderr.decode()[-500:]))
+                continue
+            old, new = _sqlite_dump(pold), _sqlite_dump(pnew)
+            nstmt = int([l for l in r2.stdout.decode().splitlines() if l.startswith("STATEMENTS")][0].split()[1]) if b"STATEMENTS" in r2.stdout else 12
+            for k in range(0, 40):
+                pk = os.path.join(d, "k%d.sqlite3" % k)
+                rk = run_child(pk, hist, k)
+                case = {"history": kind, "kill_before_statement": k}
+                if rk.returncode == 0:
+                    break                      # k is beyond the transaction: the event was applied without a kill
+                got = _sqlite_dump(pk)
+                s.case(case, nontrivial=True)
+                s.count("killed_" + kind)
+                if got["integrity"] != "ok" or {k2: got[k2] for k2 in ("events", "tags")} not in (
+                        {k2: old[k2] for k2 in ("events", "tags")}, {k2: new[k2] for k2 in ("events", "tags")}):
+                    s.violate("state-in-between-after-kill", case, "after SIGKILL the reopened database is neither the state before nor after the event",
+                              expected={"old": old["events"], "new": new["events"]}, observed=got)
+        finally:
+            shutil.rmtree(d, ignore_errors=True)
+    if s.cases < 2:
+        s.case({"note": "no kill point reached"}, nontrivial=False)
+        s.case({"note": "no kill point reached (2)"}, nontrivial=False)
+    return s
